@@ -6,6 +6,8 @@ R6.3  generated dispatch: the wildcard arm and every non-2xx arm raise on every 
 R6.4  alias classes: base chosen by range helpers that evaluate to [400,499] / [500,599]; every status for which
       the handler raises an alias has an alias class (agreement handler <-> ExceptionVisitor/ExceptionsEmitter)
 R6.5  errors carry status and response (HTTPError.__init__, alias __init__ template, raise templates)
+R6.6  the shared-core predicate holds for every layout [= R11.2]; R6.7 call-local memo keys in the loader cover the status code
+R6.8  the exception registry is read, extended and written back as a union, never rebuilt (alias classes of other clients stay importable)  [= R11.1]
 """
 from __future__ import annotations
 
@@ -202,6 +204,8 @@ def run(repo: Repo, rep: Report, tier: str) -> None:
     from rules._reuse import reuse
 
     reuse(repo, rep, "c11", {"R11.2": "R6.6"})
+    # R6.8: the alias classes other clients raise survive a regeneration (registry read-modify-write-union)
+    reuse(repo, rep, "c11", {"R11.1": "R6.8"})
     from rules._memo import local_memo_rule
 
     local_memo_rule(repo, rep, "R6.7", ("core.loader",),
